@@ -534,14 +534,15 @@ Definition spec_is_failure (k : wkind) (d : derr) : bool :=
     | WGrpcServerUnary | WGrpcServerStream =>
       match d with
       | DStatus c => existsb (Z.eqb c) [4; 8; 12; 13; 14; 15]
-      | DCtxDeadline | DBreakerUnavailable => true
+      | DCtxDeadline | DBreakerUnavailable | DWrappedDeadline | DWrappedBreakerUnavailable => true
       | _ => false
       end
     | WRedisCmd | WRedisIgnoredCmd | WRedisPipeline | WRedisReal =>
       match d with DRedisNil | DWrappedRedisNil | DCtxCanceled | DWrappedCanceled => false | _ => true end
     | WSqlExec | WSqlPredicate | WSqlM _ _ =>
       match d with
-      | DSqlNoRows | DSqlTxDone | DCtxCanceled | DWrappedCanceled | DSqlAcceptable => false
+      | DSqlNoRows | DSqlTxDone | DCtxCanceled | DWrappedCanceled | DSqlAcceptable
+      | DWrappedSqlNoRows | DWrappedSqlTxDone => false
       | DSqlCustom i n => negb ((1 <=? i) && (i <=? n))     (* accepted by one of the n WithAcceptable options *)
       | DSqlScanFail =>                                     (* a scan failure does not count against the database *)
         match k with
